@@ -78,6 +78,7 @@ public:
   void commandProcessHadError(Command*, ProcessHandle, const Twine&) override {}
   void commandProcessHadOutput(Command*, ProcessHandle, StringRef) override {}
   void commandProcessFinished(Command*, ProcessHandle, const basic::ProcessResult&) override {}
+  void determinedRuleNeedsToRun(core::Rule* rule, core::Rule::RunReason reason, core::Rule* inputRule) override;
 };
 
 struct Run {
@@ -325,6 +326,11 @@ void Delegate::commandCannotBuildOutputDueToMissingInputs(Command* c, Node*, Arr
   std::string s;
   for (auto& k : inputs) s += (k.isNode() ? k.getNodeName().str() : std::string("?")) + " ";
   run->ev("missing-inputs " + c->getName().str() + " " + s);
+}
+void Delegate::determinedRuleNeedsToRun(core::Rule* rule, core::Rule::RunReason reason, core::Rule* inputRule) {
+  static const char* names[] = {"never-built", "signature-changed", "invalid-value", "input-rebuilt", "forced"};
+  if (getenv("VSIM_REASONS"))
+    run->ev("needs-to-run " + util::printable(rule->key.str(), 50) + " " + names[(int)reason] + (inputRule ? " <- " + util::printable(inputRule->key.str(), 50) : ""));
 }
 void Delegate::cannotBuildNodeDueToMultipleProducers(Node*, std::vector<Command*>) { run->ev("multiple-producers"); }
 
